@@ -337,6 +337,7 @@ def random_cases(draw):
     names = [{"tag": n} if draw(st.integers(0, 7)) == 0 and "\n" not in n else n for n in names]  # some names are str-subclass objects whose str() differs
     if draw(st.integers(0, 9)) < 7:
         names = uniquify(names, parents)
+    names = [n if sep not in rr.name_text(n) else "n%d" % i for i, n in enumerate(names)]  # 'X'.swapcase() with the separator 'x'
     texts = [rr.name_text(n) for n in names]
 
     def qmark(s):
